@@ -11,6 +11,21 @@ CLAIMED = {
             "Every generated pair runs the real functions and is judged by an independent reference dynamic programme and by applying the returned script; held on the executions listed in the evidence (10^5-10^6 pairs per run, all flag combinations), which is the strongest statement runtime monitoring can make about a universally quantified pure function.",
             "trusted: unicode-segmentation for character boundaries, the harness reference implementation, rustc. Inputs are sampled, not exhausted.",
             "DESIGN.md 6/C12"),
+    "C05": ("exploration",
+            "schedule exploration on the real threads: controller serialises workers and consumer at cfg(feature=verif) hook points (random walk / PCT / burst / biased strategies), free-running stress with seeded delay injection, deadlock verdict from observed futility; exactly-once + order oracle over uniquely tagged items; Miri many-seeds lane in thorough",
+            "Each case is one real execution of Pipe with W worker threads under a controller-chosen or delay-perturbed interleaving, judged by an order/exactly-once/termination oracle; held on the K distinct interleavings listed in the evidence. Schedules are sampled, not exhausted, at hook-point granularity (sub-point windows only through burst steps, the chaos lane and Miri).",
+            "trusted: the hook points do not change behaviour when no callback is installed; /proc thread states for blocking detection; sequentially consistent view at hook granularity.",
+            "DESIGN.md 6/C05"),
+    "C09": ("fault_enumeration",
+            "fault points (stack kind x W x buffer x k consumed before idle/drop x upstream length) enumerated by a seeded generator and executed on the real threads under controlled and delay-perturbed schedules; count monitor inside the upstream iterator (pulled-consumed, pulled-after-drop), Drop-event oracle for thread exit, futility-based stuck detection; child processes for panicking workers",
+            "Every fault point is executed on the real code; verdicts are counts and observed events (pull counts against a bound independent of the upstream length, Drop of the upstream iterator, child exit status), not timers. Held on the fault points and interleavings listed in the evidence.",
+            "trusted: bound L = 4*(W+buffer)+8 as the meaning of 'bounded'; /proc thread states; the child process runs the repo's own panic hook.",
+            "DESIGN.md 6/C09"),
+    "C13": ("exploration",
+            "runtime oracle over seeded triples: totality under catch_unwind, range checks, calibration identities derived from an independent word-LCS, whitespace-operation set algebra and F-beta aggregation recomputed by the harness, formula checks for accuracy/binary_f1/mean edit distances",
+            "Each generated triple list runs all metric functions of the real crate; values are compared with independently recomputed ones on NFKC-stable text and judged on no-panic/range on arbitrary Unicode. Held on the executions listed in the evidence.",
+            "trusted: the harness's own clean/LCS/Levenshtein/whitespace-operation references; value checks restricted to NFKC-stable, grapheme-safe text.",
+            "DESIGN.md 6/C13"),
 }
 
 PENDING_REASON = "monitor not built yet in this session (planned in DESIGN.md section 6); not claimed until its check exists and is silent on the unchanged tree"
